@@ -51,6 +51,9 @@ type outcome struct {
 
 func probeClass(label string) (string, string) {
 	// "P3" → ("P","") ; "P3.burst1-msg" → ("probe","burst-msg")
+	if strings.HasPrefix(label, "S") {
+		return "session", ""
+	}
 	i := strings.IndexByte(label, '.')
 	if i < 0 {
 		if strings.HasPrefix(label, "h") {
@@ -110,7 +113,7 @@ func compareTranscripts(r *vlib.Run, g *Group, a, m *Transcript, report bool) ou
 			ds = append(ds, Diff{Field: f, Detail: fmt.Sprintf("requests handed to resolution differ: %v vs %v", x.Stub, y.Stub)})
 		}
 		if fmt.Sprint(x.State) != fmt.Sprint(y.State) {
-			ds = append(ds, Diff{Field: "cache-state", Detail: fmt.Sprintf("sizes [positive negative failure cut proof] %v vs %v", x.State, y.State)})
+			ds = append(ds, Diff{Field: "cache-state", Detail: fmt.Sprintf("sizes [live positive, live negative, failure, cut, proof] %v vs %v", x.State, y.State)})
 		}
 		if fmt.Sprint(x.HitMs) != fmt.Sprint(y.HitMs) && report {
 			// informational only: the hit/miss statistics are not visible to later
@@ -120,6 +123,18 @@ func compareTranscripts(r *vlib.Run, g *Group, a, m *Transcript, report bool) ou
 		}
 		if len(ds) == 0 {
 			continue
+		}
+		// differences with a proven, recorded explanation (FINDINGS.md #3, #4)
+		switch kind {
+		case "P":
+			if lastPkt >= 0 && lastPkt < len(g.Pkts) {
+				ds = explainTruncation(ds, x.Reply, y.Reply, g.Proto, g.Pkts[lastPkt].Hex)
+			}
+		case "session":
+			ds = explainTruncation(ds, x.Reply, y.Reply, x.Kind[:strings.IndexByte(x.Kind+".", '.')], x.PktHex)
+		}
+		if kind == "P" || kind == "session" {
+			ds = explainHopPrefetch(ds, g, x, y)
 		}
 		if kind == "history" {
 			ttlOnly := true
@@ -145,6 +160,12 @@ func compareTranscripts(r *vlib.Run, g *Group, a, m *Transcript, report bool) ou
 			out.retry = true
 			return out
 		}
+		if !report && len(ds) == 1 && ds[0].Field == "cache-state" {
+			// live-entry counts depend on the clock like TTLs do (an entry may run
+			// out between two worlds' visits): rebuild once, report what persists
+			out.retry = true
+			return out
+		}
 		if !report {
 			soft := true
 			for _, d := range ds {
@@ -166,6 +187,8 @@ func compareTranscripts(r *vlib.Run, g *Group, a, m *Transcript, report bool) ou
 			}
 			if d.Sig != "" {
 				sig = d.Sig
+			} else if kind == "session" {
+				sig = vlib.Sig(a.World, "session", d.Field, "step="+x.Kind)
 			} else if kind == "P" {
 				sig = vlib.Sig(a.World, "P", d.Field, "rung="+lastRung)
 			} else {
@@ -174,6 +197,17 @@ func compareTranscripts(r *vlib.Run, g *Group, a, m *Transcript, report bool) ou
 			c := replayCase{Group: g, World: a.World, Step: x.Label, Field: d.Field, Detail: d.Detail, Subject: x, Ref: y}
 			if lastPkt >= 0 && lastPkt < len(g.Pkts) {
 				c.PktHex, c.Client = g.Pkts[lastPkt].Hex, g.Pkts[lastPkt].Client
+			}
+			if kind == "session" {
+				c.PktHex, c.Client = x.PktHex, sessionClient(g, x.Label)
+				what := fmt.Sprintf("%s world vs decoded world, conf=%s group=%d session step %s (%s, client %s, rung %s): %s — %s; the session so far: %s",
+					a.World, g.Conf.Name, g.Index, x.Label, x.Kind, c.Client, x.Rung, d.Field, d.Detail, sessionTrail(a, m, i))
+				if len(what) > 1400 {
+					what = what[:1400] + "…"
+				}
+				r.Violation(sig, what, c)
+				out.violations++
+				continue
 			}
 			what := fmt.Sprintf("%s world vs decoded world, conf=%s proto=%s group=%d step=%s (packet %d, target %s, rung %s): %s — %s",
 				a.World, g.Conf.Name, g.Proto, g.Index, x.Label, lastPkt, pktTarget(g, lastPkt), x.Rung+"|after:"+lastRung, d.Field, d.Detail)
@@ -189,6 +223,156 @@ func compareTranscripts(r *vlib.Run, g *Group, a, m *Transcript, report bool) ou
 		}
 	}
 	return out
+}
+
+const (
+	sigTruncation  = "truncation/decoded-path-length-estimate-exceeds-packed-size"
+	sigHopPrefetch = "chase-hop-prefetch/wire-composer-skips-hop-refresh"
+)
+
+// udpLimit is the reply size the server allows a UDP client that sent pkt:
+// the advertised EDNS size clamped to [512, 1232], 512 without an OPT.
+func udpLimit(pkt []byte) (int, bool) {
+	m := new(dns.Msg)
+	if m.Unpack(pkt) != nil {
+		return 0, false
+	}
+	opt := m.IsEdns0()
+	if opt == nil {
+		return dns.MinMsgSize, true
+	}
+	size := int(opt.UDPSize())
+	if size < dns.MinMsgSize {
+		size = dns.MinMsgSize
+	}
+	if size > 1232 {
+		size = 1232
+	}
+	return size, true
+}
+
+// explainTruncation recognises ONE mechanism (FINDINGS.md #3): over UDP the
+// decoded path truncated (TC=1, empty sections) a reply the byte path sent
+// whole, although the reply fits the client's limit — as the byte path sent it
+// AND as the library packs it — because the decoded path decides on
+// dns.Msg.Len(), an estimate that exceeds the packed size. Everything is
+// re-measured here; if any part of the explanation fails the differences stay
+// what they are.
+func explainTruncation(ds []Diff, x, y Canon, proto, reqHex string) []Diff {
+	if proto != "udp" || !x.Wrote || !y.Wrote || !x.Unpack || !y.Unpack || len(x.Bits) != 8 || len(y.Bits) != 8 {
+		return ds
+	}
+	if x.Bits[2] != '0' || y.Bits[2] != '1' || len(y.Answer)+len(y.Ns)+len(y.Extra) != 0 || x.RawHex == "" {
+		return ds
+	}
+	req, err := hex.DecodeString(reqHex)
+	if err != nil {
+		return ds
+	}
+	limit, ok := udpLimit(req)
+	if !ok {
+		return ds
+	}
+	raw, _ := hex.DecodeString(x.RawHex)
+	m := new(dns.Msg)
+	if len(raw) > limit || m.Unpack(raw) != nil {
+		return ds
+	}
+	m.Compress = true
+	est := m.Len()
+	packed, perr := m.Pack()
+	if perr != nil || len(packed) > limit || est <= limit {
+		return ds
+	}
+	var out []Diff
+	for _, d := range ds {
+		switch {
+		case d.Field == "header.TC", d.Field == "header.AD", strings.HasPrefix(d.Field, "section."), strings.HasPrefix(d.Field, "ttl."):
+		default:
+			out = append(out, d)
+		}
+	}
+	return append(out, Diff{Field: "truncation", Soft: true, Sig: sigTruncation,
+		Detail: fmt.Sprintf("byte path sent the whole reply (%d octets), decoded path sent TC=1 with empty sections; client limit %d, the library packs the reply into %d octets but Msg.Len() estimates %d",
+			len(raw), limit, len(packed), est)})
+}
+
+// explainHopPrefetch recognises ONE mechanism (FINDINGS.md #4): with prefetch
+// on, the wire composer served an alias chain and did not start the background
+// refresh of a prefetch-due HOP entry that the decoded chase (which reaches the
+// hop through the internal pipeline) did start. Proven from the observation:
+// the subject step was served by the composer, the replies are identical, and
+// everything the decoded world sent upstream in addition is an internal request
+// for a hop owner of the composed answer (never for the question itself).
+func explainHopPrefetch(ds []Diff, g *Group, x, y Step) []Diff {
+	if g.Conf.Prefetch == 0 || rungClass(x.Rung) != "chase" || len(x.Reply.QD) != 1 {
+		return ds
+	}
+	for _, d := range ds {
+		if d.Field != "upstream-count" && d.Field != "upstream" {
+			return ds
+		}
+	}
+	qname := strings.ToLower(x.Reply.QD[0][:strings.IndexByte(x.Reply.QD[0], '|')])
+	hops := map[string]bool{}
+	for _, rr := range x.Reply.Answer {
+		if rr.Owner != qname {
+			hops[rr.Owner] = true
+		}
+	}
+	have := map[string]int{}
+	for _, l := range x.Stub {
+		have[l]++
+	}
+	extra := 0
+	var names []string
+	for _, l := range y.Stub {
+		if have[l] > 0 {
+			have[l]--
+			continue
+		}
+		f := strings.SplitN(l, "|", 5)
+		if len(f) < 5 || f[3] != "int=true" || !hops[strings.ToLower(f[0])] {
+			return ds
+		}
+		extra++
+		names = append(names, f[0])
+	}
+	for _, n := range have {
+		if n != 0 {
+			return ds
+		}
+	}
+	if extra == 0 {
+		return ds
+	}
+	return []Diff{{Field: "chase-hop-prefetch", Sig: sigHopPrefetch,
+		Detail: fmt.Sprintf("the wire composer served %s from cached hops and started no refresh; the decoded chase refreshed the prefetch-due hop(s) %v in the background", qname, names)}}
+}
+
+func sessionClient(g *Group, label string) string {
+	var si, k int
+	if _, err := fmt.Sscanf(label, "S%d.%d", &si, &k); err == nil && si < len(g.Sessions) {
+		return g.Sessions[si].Client
+	}
+	return "?"
+}
+
+// sessionTrail renders the steps of the session up to index i as
+// "kind:class/class" (subject world / decoded world).
+func sessionTrail(a, m *Transcript, i int) string {
+	var b strings.Builder
+	prefix := a.Steps[i].Label[:strings.IndexByte(a.Steps[i].Label, '.')+1]
+	for j := 0; j <= i; j++ {
+		if !strings.HasPrefix(a.Steps[j].Label, prefix) {
+			continue
+		}
+		if i-j > 8 {
+			continue
+		}
+		fmt.Fprintf(&b, " %s:%s/%s", a.Steps[j].Kind, rcodeClass(a.Steps[j].Reply), rcodeClass(m.Steps[j].Reply))
+	}
+	return b.String()
 }
 
 func pktTarget(g *Group, i int) string {
@@ -231,6 +415,9 @@ func account(r *vlib.Run, g *Group, raw, inl, msg *Transcript) {
 			r.Count("probe_pairs", 2)
 			r.Count("probe_rung_"+rungClass(s.Rung), 1)
 			continue
+		case "session":
+			accountSession(r, g, s, inl.Steps[i], msg.Steps[i])
+			continue
 		}
 		pi++
 		p := g.Pkts[pi]
@@ -267,6 +454,9 @@ func account(r *vlib.Run, g *Group, raw, inl, msg *Transcript) {
 		r.DistinctIn("state_x_rung", p.Target+"/"+rung)
 		r.Distinct(strings.Join([]string{g.Conf.Name, g.Proto, p.Target, rung, cls}, "/"))
 		r.Count("state_"+p.Target+"_"+rung, 1)
+		if p.Target == "chain-mixed" && rung == "chase" {
+			accountMixed(r, s, msg.Steps[i])
+		}
 		for _, tag := range strings.Split(p.Shape, ",") {
 			if tag != "" {
 				if j := strings.IndexAny(tag, "0123456789"); j > 0 && !strings.HasPrefix(tag, "name:") {
@@ -303,6 +493,91 @@ func account(r *vlib.Run, g *Group, raw, inl, msg *Transcript) {
 				"reply_class": cls, "upstream": s.Stub})
 		}
 	}
+}
+
+// accountMixed records which kinds of hop-to-hop difference the wire composer
+// actually served (s.Note: per-hop attribute bits of the admissions the hops
+// stem from, head of the chain first).
+func accountMixed(r *vlib.Run, s, ref Step) {
+	r.Count("mixed_chase_served", 1)
+	for _, f := range strings.Fields(s.Note) {
+		k, v, ok := strings.Cut(f, "=")
+		if !ok {
+			continue
+		}
+		if strings.Contains(v, "0") && strings.Contains(v, "1") {
+			r.Count("mixed_chase_hops_differ_"+k, 1)
+			if k == "ad" {
+				switch {
+				case v[0] == '1':
+					r.Count("mixed_chase_head_ad1_hop_ad0", 1)
+				default:
+					r.Count("mixed_chase_head_ad0_hop_ad1", 1)
+				}
+				// the client can see the AD verdict: DO or AD in the query, CD clear
+				if e := s.Reply.EDNS; len(s.Reply.Bits) == 8 && s.Reply.Bits[7] == '0' && (e != nil && e.DO || ref.Reply.Bits != "" && ref.Reply.Bits[6] == '1') {
+					r.Count("mixed_chase_ad_differs_visible", 1)
+				}
+			}
+		}
+		r.DistinctIn("mixed_chase_states", f)
+	}
+	if len(s.Reply.Bits) == 8 {
+		r.Count("mixed_chase_reply_ad"+string(s.Reply.Bits[6]), 1)
+	}
+}
+
+// accountSession records what a session step observed (raw world s, inline
+// world is, decoded world ms).
+func accountSession(r *vlib.Run, g *Group, s, is, ms Step) {
+	r.Count("session_steps", 1)
+	r.Eval(2)
+	cls := rcodeClass(s.Reply)
+	r.Count("session_class_"+cls, 1)
+	r.Count("session_"+s.Kind+"_"+cls, 1)
+	r.DistinctIn("session_kind_x_class", s.Kind+"/"+cls)
+	r.DistinctIn("session_kind_x_class_x_rung", s.Kind+"/"+cls+"/"+rungClass(s.Rung))
+	r.Distinct(strings.Join([]string{g.Conf.Name, "session", s.Kind, rungClass(s.Rung), cls}, "/"))
+	if s.Echoed {
+		r.Count("session_echoed_server_cookie", 1)
+		if cls != "badcookie" && cls != "dropped" {
+			r.Count("session_echo_accepted", 1)
+		}
+	}
+	if replyCookie(s.Reply) != "" {
+		r.Count("session_replies_with_server_cookie", 1)
+	}
+	if strings.HasPrefix(s.Kind, "tcp.") {
+		r.Count("session_tcp_steps", 1)
+		// a cookie that cannot match what the server remembers, over a stream
+		// transport, answered: the plain-limiter leg that refreshes the cookie
+		for _, k := range []string{".cc", ".wrong", ".graft", ".burst-cc", ".burst-wrong"} {
+			if strings.HasSuffix(s.Kind, k) && cls != "dropped" && g.Conf.ClientRate > 0 {
+				r.Count("session_tcp_mismatch_answered", 1)
+			}
+		}
+	}
+	if strings.Contains(s.Kind, "burst") {
+		r.Count("session_burst_steps", 1)
+		if cls == "dropped" {
+			r.Count("session_burst_dropped_by_limiter", 1)
+		}
+	} else if cls == "dropped" && g.Conf.ClientRate > 0 {
+		r.Count("session_dropped_outside_burst", 1)
+	}
+	if len(s.Stub) > 0 {
+		r.Count("session_handed_to_resolution", 1)
+	}
+	switch {
+	case strings.HasSuffix(is.Rung, "/inline"):
+		r.Count("session_inline_served", 1)
+	case strings.Contains(is.Rung, "/replay"):
+		r.Count("session_inline_handoff", 1)
+	}
+	if rungClass(s.Rung) != "declined-to-decode" && rungClass(s.Rung) != "undecodable" {
+		r.Count("session_wire_born", 1)
+	}
+	_ = ms
 }
 
 // ---------------------------------------------------------------------
@@ -424,6 +699,16 @@ func checkAdmission(r *vlib.Run, pkt []byte) {
 
 // ---------------------------------------------------------------------
 
+// dropSessions removes the session steps (not judged).
+func (t *Transcript) dropSessions() {
+	for i, s := range t.Steps {
+		if strings.HasPrefix(s.Label, "S") {
+			t.Steps = t.Steps[:i]
+			return
+		}
+	}
+}
+
 func hasLimiter(g *Group) bool { return g.Conf.EntryRate > 0 || g.Conf.ClientRate > 0 }
 
 const slowLimit = 150 * time.Millisecond
@@ -451,6 +736,25 @@ func runGroup(r *vlib.Run, g *Group) bool {
 			return true
 		}
 		final := attempt == 1
+		if len(g.Sessions) > 0 {
+			// a session's verdict rests on token arithmetic of its own bucket
+			// (client limiter: one token per 60/rate s; entry limiter: rate per
+			// second): a session that stalled is re-run once, else not judged
+			limit := time.Second
+			if g.Conf.EntryRate > 0 {
+				limit = slowLimit
+			}
+			if msg.SessElapsed > limit || raw.SessElapsed > limit || inl.SessElapsed > limit {
+				r.Count("sessions_too_slow", 1)
+				if !final {
+					continue
+				}
+				r.Count("sessions_skipped_slow", 1)
+				for _, t := range []*Transcript{msg, raw, inl} {
+					t.dropSessions()
+				}
+			}
+		}
 		o1 := compareTranscripts(r, g, raw, msg, false)
 		o2 := compareTranscripts(r, g, inl, msg, false)
 		if o1.hdiv != "" || o2.hdiv != "" {
@@ -479,7 +783,8 @@ func runGroup(r *vlib.Run, g *Group) bool {
 
 func main() {
 	r := vlib.Start("C05", "exploration")
-	r.Assume("the stub (scripted upstream) answers purely by question, so an admission history replays identically in every world")
+	r.Assume("the stub (scripted upstream) answers purely by question (mixed-chain families: question + per-question invocation ordinal), so an admission history replays identically in every world")
+	r.Assume("a client session's packets are built inside each world from that world's own earlier replies (server cookies are parsed out of replies, never computed by the harness)")
 	r.Assume("option ORDER inside the reply OPT and record order inside a section are not compared (multisets), as the statement allows")
 	r.Assume("token buckets refill on the wall clock: a limiter-bearing group whose packet phase took > 150 ms is re-run once and otherwise skipped (counted), never judged")
 
@@ -512,7 +817,7 @@ func main() {
 	start := time.Now()
 	for i := 0; i < ngroups; i++ {
 		rng := r.RandN("group", i)
-		g := genGroup(rng, i, r.Seed, npkts)
+		g := genGroup(rng, r.RandN("group-x", i), i, r.Seed, npkts)
 		for _, p := range g.Pkts {
 			b, _ := hex.DecodeString(p.Hex)
 			checkAdmission(r, b)
@@ -540,6 +845,18 @@ func main() {
 	for _, c := range []string{"class_badvers", "class_formerr", "class_notimp", "class_dropped", "class_truncated", "class_servfail",
 		"class_nxdomain", "class_noerror", "rung_undecodable"} {
 		r.Require(c, 2)
+	}
+	// client sessions (cookie / limiter conversations)
+	for c, min := range map[string]int64{"session_steps": 1500, "session_wire_born": 1500, "session_class_badcookie": 150,
+		"session_burst_dropped_by_limiter": 200, "session_echoed_server_cookie": 200, "session_echo_accepted": 150,
+		"session_tcp_steps": 250, "session_tcp_mismatch_answered": 40, "session_inline_handoff": 100, "session_handed_to_resolution": 100} {
+		r.Require(c, min)
+	}
+	// alias chains whose hops differ, served by the wire composer
+	for c, min := range map[string]int64{"mixed_chase_served": 80, "mixed_chase_hops_differ_ad": 30, "mixed_chase_head_ad1_hop_ad0": 10,
+		"mixed_chase_head_ad0_hop_ad1": 10, "mixed_chase_ad_differs_visible": 10, "mixed_chase_hops_differ_ede": 30,
+		"mixed_chase_hops_differ_sig": 30, "mixed_chase_hops_differ_short": 30} {
+		r.Require(c, min)
 	}
 	r.Require("pairs_raw", int64(r.N(3000, 80000)))
 	r.Require("admission_strict", 5000)
